@@ -494,6 +494,22 @@ def design_level(prop, tier, run):
 def replay(prop, path):
     """Re-runs the single case of a replay file against the current /repo and has TLC judge it again."""
     case = json.load(open(path))
+    if case.get("kind") == "pipeline-scale":
+        # a large tagged union (lib/scale.py): the verdict can be replayed from the label; the table findings need the whole
+        # composition again, which `./check <ID> quick` rebuilds with the same seed
+        common.build_harness()
+        o = common.kv("gen", [{"id": 0, "src": case["src"], "want": []}])[0]["res"]
+        if prop == "C04":
+            want_ok = case.get("label") == "all LALR(1)"
+            is_ok = o["t"] == "ok"
+            is_conflict = o["t"] == "err" and o["err"]["v"] == "TableConflict"
+            log("label: %s; generate: %s" % (case.get("label"), o["t"] if o["t"] != "err" else o["err"]["v"]))
+            if (want_ok and not is_ok) or (not want_ok and not is_conflict):
+                print("VIOLATION property=%s replay=%s" % (prop, path))
+                return 1
+            return 0
+        log("table-level finding on a large union: re-run ./check %s quick" % prop)
+        return 0
     pres = case["pres"]
     pres["rules"] = {int(k): v for k, v in pres["rules"].items()}
     c = {"G": case["grammar"], "pres": pres, "src": case["src"], "origin": case.get("origin", "replay")}
